@@ -42,3 +42,139 @@ MUTANTS = [
      "edits": [("src/view/text.rs", '        let mut writer = surf.writer(ctx).with_wraps(self.wraps);\n        self.cells.iter().for_each(|cell| {\n            writer.put_cell(cell.clone());\n        });\n', "        surf.writer(ctx).put_text(self);\n"),
                ("src/render.rs", '        text.cells().iter().cloned().for_each(|cell| {\n            self.put_cell(cell);\n        });\n        self\n', '        let wraps = self.set_wraps(text.wraps());\n        text.cells().iter().cloned().for_each(|cell| {\n            self.put_cell(cell);\n        });\n        self.set_wraps(wraps);\n        self\n')]},
 ]
+
+# ---- robustness round: behaviour-preserving refactorings that must stay silent, and their breaking twins -------------------
+R_ = "src/render.rs"
+T_ = "src/view/text.rs"
+_FILL_OLD = """        } else if cursor_start != self.cursor {
+            // cursor has been moved by special character, and we want to fill
+            // skipped cells with current face
+            let shape = self.surf.shape();
+            let data = self.surf.data_mut();
+
+            let start = shape.offset(cursor_start);
+            let end = shape.offset(self.cursor);
+
+            for row in cursor_start.row..min(self.cursor.row + 1, shape.height) {
+                for col in 0..shape.width {
+                    let offset = shape.offset(Position::new(row, col));
+                    if (start..end).contains(&offset) {
+                        let cell = &mut data[offset];
+                        cell.face = cell.face.overlay(&face);
+                    }
+                }
+            }
+            true
+        } else {
+            true
+        }
+    }
+}
+"""
+_FILL_CALL = """        } else {
+            if cursor_start != self.cursor {
+                self.fill_skipped(cursor_start, face);
+            }
+            true
+        }
+    }
+}
+
+impl TerminalWriter<'_> {
+    fn fill_skipped(&mut self, from: Position, face: Face) {
+        let to = self.cursor;
+        let shape = self.surf.shape();
+        let data = self.surf.data_mut();
+        let start = shape.offset(from);
+        let end = shape.offset(to);
+        for row in %s {
+            for col in 0..shape.width {
+                let offset = shape.offset(Position::new(row, col));
+                if (start..end).contains(&offset) {
+                    let skipped = &mut data[offset];
+                    skipped.face = skipped.face.overlay(&face);
+                }
+            }
+        }
+    }
+}
+"""
+_TW_WRITE = "impl std::io::Write for TerminalWriter<'_> {\n    fn write(&mut self, buf: &[u8]) -> std::io::Result<usize> {\n        let mut cur = std::io::Cursor::new(buf);\n        while let Some(ch) = self.decoder.decode(&mut cur)? {\n            if !self.put_char(ch) {\n                return Ok(buf.len());\n            }\n        }\n        Ok(cur.position() as usize)"
+_TW_HEAD = "impl std::io::Write for TerminalWriter<'_> {\n    fn write(&mut self, buf: &[u8]) -> std::io::Result<usize> {\n        let mut cur = std::io::Cursor::new(buf);\n"
+_GET_MUT = "            if let Some(cell_ref) = self.surf.get_mut(pos) {\n                cell_ref.overlay(cell.with_face(face));\n                true\n            } else {\n                false\n            }"
+_TEXT_LAYOUT = "        self.cells.iter().for_each(|cell| {\n            cell.layout(ctx, ct.max.width, self.wraps, &mut size, &mut cursor);\n        });\n"
+_TEXT_RENDER = "        let mut writer = surf.writer(ctx).with_wraps(self.wraps);\n        self.cells.iter().for_each(|cell| {\n            writer.put_cell(cell.clone());\n        });\n"
+_STR_LAYOUT = "        self.chars().for_each(|c| {\n            Cell::new_char(face, c).layout(ctx, ct.max.width, true, &mut size, &mut cursor);\n        });\n"
+MUTANTS += [
+    # helper extraction (seeded/benign C09-A)
+    {"id": "C09-benign-fill-helper", "prop": "C09", "benign": True,
+     "edits": [(R_, _FILL_OLD, _FILL_CALL % "from.row..min(to.row + 1, shape.height)")]},
+    {"id": "C09-fill-helper-beyond-height", "prop": "C09", "expect": "CONTAIN",
+     "edits": [(R_, _FILL_OLD, _FILL_CALL % "from.row..to.row + 1")]},
+    # hoisted invariants + exact fast path (seeded/benign C09-C)
+    {"id": "C09-benign-fill-hoisted", "prop": "C09", "benign": True,
+     "edits": [(R_, "            for row in cursor_start.row..min(self.cursor.row + 1, shape.height) {\n                for col in 0..shape.width {\n                    let offset = shape.offset(Position::new(row, col));\n                    if (start..end).contains(&offset) {",
+                "            if start >= end {\n                return true;\n            }\n            let skipped = start..end;\n            let row_end = min(self.cursor.row + 1, shape.height);\n            for row in cursor_start.row..row_end {\n                for col in 0..shape.width {\n                    let offset = shape.offset(Position::new(row, col));\n                    if skipped.contains(&offset) {")]},
+    {"id": "C09-benign-fill-min-swapped-rows-local", "prop": "C09", "benign": True,
+     "edits": [(R_, "            for row in cursor_start.row..min(self.cursor.row + 1, shape.height) {", "            let rows = cursor_start.row..min(shape.height, self.cursor.row + 1);\n            for row in rows {")]},
+    {"id": "C09-fill-cols-beyond-width", "prop": "C09", "expect": "CONTAIN",
+     "edits": [(R_, "                for col in 0..shape.width {\n                    let offset = shape.offset(Position::new(row, col));\n                    if (start..end)", "                for col in 0..shape.width + 1 {\n                    let offset = shape.offset(Position::new(row, col));\n                    if (start..end)")]},
+    {"id": "C09-fill-offset-shifted", "prop": "C09", "expect": "CONTAIN",
+     "edits": [(R_, "                        let cell = &mut data[offset];\n", "                        let cell = &mut data[offset + 1];\n")]},
+    # loop <-> iterator chain in the measuring routines
+    {"id": "C09-benign-text-layout-for-loop", "prop": "C09", "benign": True,
+     "edits": [(T_, _TEXT_LAYOUT, "        let (max_width, wraps) = (ct.max.width, self.wraps);\n        for cell in &self.cells {\n            cell.layout(ctx, max_width, wraps, &mut size, &mut cursor);\n        }\n")]},
+    {"id": "C09-text-layout-for-loop-always-wraps", "prop": "C09", "expect": "C09/",
+     "edits": [(T_, _TEXT_LAYOUT, "        let (max_width, wraps) = (ct.max.width, true);\n        for cell in &self.cells {\n            cell.layout(ctx, max_width, wraps, &mut size, &mut cursor);\n        }\n")]},
+    {"id": "C09-benign-str-layout-for-loop", "prop": "C09", "benign": True,
+     "edits": [(T_, _STR_LAYOUT, "        for c in self.chars() {\n            Cell::new_char(face, c).layout(ctx, ct.max.width, true, &mut size, &mut cursor);\n        }\n")]},
+    {"id": "C09-benign-text-layout-helper", "prop": "C09", "benign": True,
+     "edits": [(T_, "        let mut size = Size::empty();\n        let mut cursor = Position::origin();\n" + _TEXT_LAYOUT, "        let size = self.measure(ctx, ct.max.width);\n"),
+               (T_, "impl View for Text {\n", "impl Text {\n    fn measure(&self, ctx: &ViewContext, width: usize) -> Size {\n        let mut size = Size::empty();\n        let mut cursor = Position::origin();\n        for cell in self.cells.iter() {\n            cell.layout(ctx, width, self.wraps, &mut size, &mut cursor);\n        }\n        size\n    }\n}\n\nimpl View for Text {\n")]},
+    {"id": "C09-text-layout-helper-min-width", "prop": "C09", "expect": "SHARED-LAYOUT",
+     "edits": [(T_, "        let mut size = Size::empty();\n        let mut cursor = Position::origin();\n" + _TEXT_LAYOUT, "        let size = self.measure(ctx, ct.min.width);\n"),
+               (T_, "impl View for Text {\n", "impl Text {\n    fn measure(&self, ctx: &ViewContext, width: usize) -> Size {\n        let mut size = Size::empty();\n        let mut cursor = Position::origin();\n        for cell in self.cells.iter() {\n            cell.layout(ctx, width, self.wraps, &mut size, &mut cursor);\n        }\n        size\n    }\n}\n\nimpl View for Text {\n")]},
+    {"id": "C09-benign-text-render-helper", "prop": "C09", "benign": True,
+     "edits": [(T_, _TEXT_RENDER, "        let mut writer = surf.writer(ctx).with_wraps(self.wraps);\n        self.write_cells(&mut writer);\n"),
+               (T_, "impl View for Text {\n", "impl Text {\n    fn write_cells(&self, writer: &mut impl CellWrite) {\n        for cell in self.cells.iter() {\n            writer.put_cell(cell.clone());\n        }\n    }\n}\n\nimpl View for Text {\n")]},
+    # io::Write adapters
+    {"id": "C09-benign-write-full-flag", "prop": "C09", "benign": True,
+     "edits": [(R_, _TW_WRITE, _TW_HEAD + "        while let Some(ch) = self.decoder.decode(&mut cur)? {\n            let full = !self.put_char(ch);\n            if full {\n                return Ok(buf.len());\n            }\n        }\n        Ok(cur.position() as usize)")]},
+    {"id": "C09-write-full-flag-inverted", "prop": "C09", "expect": "WRITER-FOLD",
+     "edits": [(R_, _TW_WRITE, _TW_HEAD + "        while let Some(ch) = self.decoder.decode(&mut cur)? {\n            let full = self.put_char(ch);\n            if full {\n                return Ok(buf.len());\n            }\n        }\n        Ok(cur.position() as usize)")]},
+    {"id": "C09-benign-write-loop-match", "prop": "C09", "benign": True,
+     "edits": [(R_, _TW_WRITE, _TW_HEAD + "        loop {\n            match self.decoder.decode(&mut cur)? {\n                None => break,\n                Some(ch) => {\n                    if self.put_char(ch) {\n                        continue;\n                    }\n                    return Ok(buf.len());\n                }\n            }\n        }\n        let consumed = cur.position() as usize;\n        Ok(consumed)")]},
+    # the sink-full signal
+    {"id": "C09-benign-put-cell-let-else", "prop": "C09", "benign": True,
+     "edits": [(R_, _GET_MUT, "            let Some(cell_ref) = self.surf.get_mut(pos) else {\n                return false;\n            };\n            cell_ref.overlay(cell.with_face(face));\n            true")]},
+    {"id": "C09-benign-put-cell-match-reordered", "prop": "C09", "benign": True,
+     "edits": [(R_, _GET_MUT, "            match self.surf.get_mut(pos) {\n                None => false,\n                Some(cell_ref) => {\n                    cell_ref.overlay(cell.with_face(face));\n                    true\n                }\n            }")]},
+    {"id": "C09-benign-put-cell-is-some", "prop": "C09", "benign": True,
+     "edits": [(R_, _GET_MUT, "            self.surf\n                .get_mut(pos)\n                .map(|cell_ref| {\n                    cell_ref.overlay(cell.with_face(face));\n                })\n                .is_some()")]},
+    {"id": "C09-benign-put-cell-write-helper", "prop": "C09", "benign": True,
+     "edits": [(R_, _GET_MUT, "            self.write_at(pos, cell.with_face(face))"),
+               (R_, "impl std::io::Write for TerminalWriter<'_> {\n", "impl TerminalWriter<'_> {\n    fn write_at(&mut self, pos: Position, cell: Cell) -> bool {\n        match self.surf.get_mut(pos) {\n            Some(cell_ref) => {\n                cell_ref.overlay(cell);\n                true\n            }\n            None => false,\n        }\n    }\n}\n\nimpl std::io::Write for TerminalWriter<'_> {\n")]},
+    {"id": "C09-put-cell-helper-full-when-unmoved", "prop": "C09", "expect": "SINK-FULL",
+     "edits": [(R_, "            true\n        } else {\n            true\n        }\n    }\n}\n\nimpl std::io::Write for TerminalWriter", "            true\n        } else {\n            self.moved(cursor_start)\n        }\n    }\n}\n\nimpl TerminalWriter<'_> {\n    fn moved(&self, from: Position) -> bool {\n        from != self.cursor\n    }\n}\n\nimpl std::io::Write for TerminalWriter")]},
+    {"id": "C09-benign-layout-width-hoisted", "prop": "C09", "benign": True,
+     "edits": [(R_, "        let cursor_start = self.cursor;\n        if let Some(pos) = cell.layout(\n            &self.ctx,\n            self.size().width,\n            self.wraps,", "        let cursor_start = self.cursor;\n        let (width, wraps) = (self.size().width, self.wraps);\n        if let Some(pos) = cell.layout(\n            &self.ctx,\n            width,\n            wraps,")]},
+    # measuring a glyph fallback
+    {"id": "C09-benign-fallback-width-fold", "prop": "C09", "benign": True,
+     "edits": [(R_, "                            .map(|c| c.width().unwrap_or(0))\n                            .sum(),", "                            .fold(0, |total, c| total + c.width().unwrap_or(0)),")]},
+    {"id": "C09-fallback-width-fold-count", "prop": "C09", "expect": "MEASURE-FALLBACK",
+     "edits": [(R_, "                            .map(|c| c.width().unwrap_or(0))\n                            .sum(),", "                            .fold(0, |total, _| total + 1),")]},
+]
+
+MUTANTS += [
+    {"id": "C09-benign-set-wraps-assign", "prop": "C09", "benign": True,
+     "edits": [(R_, "\n    fn set_wraps(&mut self, wraps: bool) -> bool {\n        std::mem::replace(&mut self.wraps, wraps)\n", "\n    fn set_wraps(&mut self, wraps: bool) -> bool {\n        let previous = self.wraps;\n        self.wraps = wraps;\n        previous\n")]},
+    {"id": "C09-set-wraps-assign-ignores-arg", "prop": "C09", "expect": "WRAPS-AGREE",
+     "edits": [(R_, "\n    fn set_wraps(&mut self, wraps: bool) -> bool {\n        std::mem::replace(&mut self.wraps, wraps)\n", "\n    fn set_wraps(&mut self, wraps: bool) -> bool {\n        let previous = self.wraps;\n        self.wraps = wraps || previous;\n        previous\n")]},
+]
+
+MUTANTS += [
+    {"id": "C09-benign-fill-debug-assert", "prop": "C09", "benign": True,
+     "edits": [(R_, "                    if (start..end).contains(&offset) {\n                        let cell = &mut data[offset];\n", "                    if (start..end).contains(&offset) {\n                        debug_assert!(offset < data.len());\n                        let cell = &mut data[offset];\n")]},
+    {"id": "C09-benign-write-debug-assert", "prop": "C09", "benign": True,
+     "edits": [(R_, _TW_WRITE, _TW_WRITE.replace("        Ok(cur.position() as usize)", "        debug_assert!(cur.position() as usize <= buf.len());\n        Ok(cur.position() as usize)"))]},
+]
